@@ -56,7 +56,11 @@ class StateView:
             return ty.to_z3num(self._st.warn_count)
         if name in self._st.ghost:
             return wrap(self._ex, self._st, self._st.ghost[name])
-        raise AttributeError(f"view has no name {name!r} (have {list(self._names)})")
+        # a contract clause names a local / ghost the code under verification does not have (any more): the sidecar contract does not fit this
+        # version of the function - undecided (exit 2), never "checker broken" and never a violation by itself
+        from .symex import Unsupported
+        raise Unsupported(f"contract clause refers to {name!r}, which the function under verification does not define "
+                          f"(the sidecar contract no longer matches the code; visible names: {list(self._names)})")
 
     def has(self, name):
         return name in self._names or (self._st.frames and self._st.lookup(name)[0])
